@@ -210,6 +210,7 @@ namespace bloch::runtime {
         std::vector<Value> fields;
         bool skipDestructor = false;
         bool destroyed = false;
+        bool trackedRecorded = false;    // its @tracked fields were reported at the end of the run
         bool escapedDestructor = false;  // its destructor leaked 'this': never freed
         RuntimeEvaluator* owner = nullptr;
         bool marked = false;
